@@ -459,9 +459,12 @@ def oracle(ctx):
         mode = rng.choice(["uppest", "lowest", "uppermost"])
         mn = min(m, n)
         k = rng.choice([1, mn, max(1, mn - 1)])
-        A = torch.randn(*batch, m, n, dtype=dtype, generator=g)
+        # overall scale of the operator (dense paths only: davidson's stopping thresholds are absolute): the factors and the
+        # relative accuracy of s must not depend on it (seeded C05/7, C06/7: eigenvalues of A^H A clamped at 1e-12)
+        amp = rng.choice([1.0, 1.0, 1e-4, 1e-8, 1e3]) if method != "davidson" else 1.0
+        A = amp * torch.randn(*batch, m, n, dtype=dtype, generator=g)
         info = {"fn": "svd", "method": method, "m": m, "n": n, "k": k, "mode": mode, "batch": list(batch), "complex": cplx,
-                "generator_seed": g.initial_seed()}
+                "generator_seed": g.initial_seed(), "A": "%g * randn" % amp}
         ctx.count(("svd", rep, method, m, n, k, mode, batch, cplx), nontrivial=mn >= 2)
         try:
             with warnings.catch_warnings():
@@ -471,11 +474,12 @@ def oracle(ctx):
         except Exception as ex:
             ctx.fail("oracle", "svd:%s:exception" % method, info, repr(ex)[:300], "singular triplets")
             continue
-        check_svd(ctx, info, A, u, s, vh, k, mode == "lowest", "svd:%s" % method, 1e-5 if method == "davidson" else 1e-8)
+        check_svd(ctx, info, A, u, s, vh, k, mode == "lowest", "svd:%s" % method, 1e-5 if method == "davidson" else 1e-8,
+                  relative=amp != 1.0)
     known_svd_rank_deficient(ctx)
 
 
-def check_svd(ctx, info, A, u, s, vh, k, lowest, key, tol):
+def check_svd(ctx, info, A, u, s, vh, k, lowest, key, tol, relative=False):
     m, n = A.shape[-2:]
     batch = tuple(A.shape[:-2])
     dtype = A.dtype
@@ -487,7 +491,7 @@ def check_svd(ctx, info, A, u, s, vh, k, lowest, key, tol):
     er = sr[..., :k] if lowest else sr[..., mn - k:]
     eye = torch.eye(k, dtype=dtype)
     v = vh.transpose(-2, -1).conj()
-    scale = 1 + sr.max().item()
+    scale = sr.max().item() if relative else 1 + sr.max().item()
     obs = {"values_vs_dense": (s - er).abs().max().item(), "min_s": s.min().item(),
            "u_orthonormal": (u.transpose(-2, -1).conj() @ u - eye).abs().max().item(),
            "v_orthonormal": (vh @ v - eye).abs().max().item(),
@@ -497,7 +501,7 @@ def check_svd(ctx, info, A, u, s, vh, k, lowest, key, tol):
         ctx.fail("oracle", key + ":negative", info, obs, "s >= 0")
         return
     for nm in ("values_vs_dense", "u_orthonormal", "v_orthonormal", "Av=su", "reconstruct"):
-        if not obs[nm] <= tol * scale:
+        if not obs[nm] <= tol * (max(scale, 1.0) if nm.endswith("orthonormal") else scale):
             ctx.fail("oracle", key + ":" + nm, info, obs, "<= %g" % (tol * scale))
             return
 
